@@ -1,4 +1,4 @@
-from sympy import Dummy
+from sympy import Dummy, S
 from .misc import Inputerror, Singleton
 
 
@@ -40,6 +40,14 @@ class Index(Dummy):
     def space_and_spin(self) -> tuple[str, str]:
         """Returns space and spin of the Index."""
         return self.space, self.spin
+
+    def sort_key(self, order=None):
+        # also include the spin in the sort key: otherwise the order of
+        # indices that only differ in their spin (same name) depends on the
+        # order in which the indices have been created.
+        return (self.class_key(),
+                (3, (self.name, self.spin, self.dummy_index)),
+                S.One.sort_key(), S.One)
 
     def __str__(self):
         spin = self.spin
